@@ -524,6 +524,135 @@ def _eval_real_socket_bursts(ctx, cases):
     return runs
 
 
+async def _real_socket_failed_write(kind, spec):
+    """one real connection; the peer (raw asyncio streams) does not read, the client writes messages of `len` bytes with a timeout until a
+    write cannot be flushed in time (kernel buffers full, writer above its high-water mark); the peer sends M1; the client issues a
+    request - by the transport's timeout or under the caller's own deadline (`how`) - whose write half cannot finish; the peer then reads
+    everything the client wrote and sends M2; the client reads three times.  -> dict of observations"""
+    import os
+    import shutil
+    import socket
+    import tempfile
+
+    from gallia.transports.base import TargetURI
+    from gallia.transports.tcp import TCPLinesTransport
+    from gallia.transports.unix import UnixLinesTransport
+
+    accepted = asyncio.Queue()
+
+    async def on_connect(r, w):
+        await accepted.put((r, w))
+
+    m1, m2, req = _rs_message(spec["seed"], 1, spec["len"]), _rs_message(spec["seed"], 2, 9), _rs_message(spec["seed"], 3, 2)
+    obs = {"written": [], "request": None, "peer_read": [], "reads": []}
+    td = tempfile.mkdtemp(prefix="verif-c19-", dir="/var/tmp")
+    try:
+        if kind == "tcp-lines":
+            srv = await asyncio.start_server(on_connect, "127.0.0.1", 0)
+            srv.sockets[0].setsockopt(socket.SOL_SOCKET, socket.SO_RCVBUF, 65536)
+            tr = await TCPLinesTransport.connect(TargetURI(f"tcp-lines://127.0.0.1:{srv.sockets[0].getsockname()[1]}"))
+            tr.writer.get_extra_info("socket").setsockopt(socket.SOL_SOCKET, socket.SO_SNDBUF, 65536)
+        else:
+            path = os.path.join(td, "s.sock")
+            srv = await asyncio.start_unix_server(on_connect, path)
+            tr = await UnixLinesTransport.connect(TargetURI(f"unix-lines://{path}"))
+        pr, pw = await asyncio.wait_for(accepted.get(), 5)
+        try:
+            filler = _rs_message(spec["seed"], 0, spec["len"])
+            stalled = False
+            for _ in range(spec["cap"]):
+                obs["written"].append(filler)
+                try:
+                    await tr.write(filler, timeout=0.3)
+                except (TimeoutError, asyncio.TimeoutError):
+                    stalled = True
+                    break
+            obs["stalled"] = stalled
+            pw.write(m1.hex().encode() + b"\n")
+            await pw.drain()
+            await asyncio.sleep(0.1)
+            obs["written"].append(req)
+            try:
+                if spec["how"] == "transport-timeout":
+                    d = await tr.request(req, timeout=0.5)
+                else:
+                    d = await asyncio.wait_for(tr.request(req, timeout=None), 0.5)
+                obs["request"] = _res(d)
+            except (TimeoutError, asyncio.TimeoutError):
+                obs["request"] = "write-timeout" if stalled else "pending"
+            except Exception as e:  # noqa: BLE001
+                obs["request"] = "exc:" + type(e).__name__
+            # the peer catches up: everything the client wrote (also the lines of the writes that timed out: they are queued), in order
+            for _ in range(len(obs["written"])):
+                try:
+                    line = await asyncio.wait_for(pr.readline(), 5)
+                except (TimeoutError, asyncio.TimeoutError):
+                    break
+                if not line.endswith(b"\n"):
+                    break
+                obs["peer_read"].append(line.strip().decode())
+            pw.write(m2.hex().encode() + b"\n")
+            await pw.drain()
+            for _ in range(3):
+                try:
+                    obs["reads"].append(_res(await tr.read(timeout=1.0)))
+                except (TimeoutError, asyncio.TimeoutError):
+                    obs["reads"].append("pending")
+                except Exception as e:  # noqa: BLE001
+                    obs["reads"].append("exc:" + type(e).__name__)
+            obs["mutex_locked"] = tr.mutex.locked()
+            pw.close()
+            await asyncio.wait_for(tr.close(), 10)
+        except Exception as e:  # noqa: BLE001
+            obs["harness_exc"] = f"{type(e).__name__}:{e}"
+        srv.close()
+    finally:
+        shutil.rmtree(td, ignore_errors=True)
+    obs["want_reads"] = ["msg " + m1.hex(), "msg " + m2.hex(), "pending"]
+    return obs
+
+
+def _eval_real_socket_failed_writes(ctx, cases):
+    async def all_():
+        return await asyncio.gather(*[_real_socket_failed_write(kind, spec) for kind, spec in cases])
+
+    loop = asyncio.new_event_loop()
+    try:
+        runs = loop.run_until_complete(all_())
+    finally:
+        loop.close()
+    for (kind, spec), o in zip(cases, runs):
+        ctx.ev()
+        ctx.kind(f"real-socket:{kind}:request-write-half-fails:{spec['how']}")
+        ctx.nontrivial(("real-socket-failed-write", kind, spec["how"]))
+        ops = [f"write x{len(o['written']) - 1} ({spec['len']} bytes each, timeout 0.3) until one times out", "peer sends M1",
+               f"request ({spec['how']} 0.5)", "peer reads everything", "peer sends M2", "read 1.0", "read 1.0", "read 1.0"]
+        case = {"side": "real-socket-failed-write", "scheme": kind, "spec": spec, "ops": ops}
+        want_peer = [m.hex() for m in o["written"]]
+        if "harness_exc" in o or not o.get("stalled"):
+            ctx.notes[f"real-socket-failed-write:{kind}:{spec['how']}"] = "precondition not reached: " + str(o.get("harness_exc", "no write ever timed out"))
+            continue
+        if o["request"] != "write-timeout":
+            ctx.disagree(f"lines-real-socket:{kind}:request-on-stalled-writer-returned:{o['request'].split()[0]}",
+                         f"{kind} over a real socket: a request whose line cannot be flushed (peer not reading) gave {_short(o['request'], 60)}",
+                         case, impl=_short(o["request"], 80), model="write-timeout", spec_violated=False, site="BaseTransport.request_unsafe")
+        if o["peer_read"] != want_peer:
+            ctx.disagree(f"lines-real-socket:{kind}:peer-did-not-get-what-was-written", f"{kind} over a real socket: the client handed {len(want_peer)} "
+                         f"messages to write() (the last ones timed out in drain() and stay queued), the peer read {len(o['peer_read'])}",
+                         case, impl=len(o["peer_read"]), model=len(want_peer), spec_violated=True, site="LinesTransportMixin.write")
+        if o["reads"] != o["want_reads"]:
+            i = next(k for k in range(3) if o["reads"][k: k + 1] != o["want_reads"][k: k + 1])
+            ctx.disagree(f"lines-real-socket:{kind}:after-failed-write-half:{o['want_reads'][i].split()[0]}-vs-{(o['reads'][i: i + 1] or ['?'])[0].split()[0]}",
+                         f"{kind} over a real socket: after a request whose write half failed ({spec['how']}) the peer's messages [M1, M2] were read as "
+                         f"{[_short(x, 30) for x in o['reads']]} (first difference at read {i})",
+                         case, impl=[_short(x, 60) for x in o["reads"]], model=[_short(x, 60) for x in o["want_reads"]], spec_violated=True,
+                         site="BaseTransport.request / request_unsafe")
+        elif o.get("mutex_locked"):
+            ctx.disagree(f"lines-real-socket:{kind}:mutex-left-locked", "transport mutex still held after the failed request", case, impl="locked",
+                         model="free", spec_violated=True, site="BaseTransport.request")
+    return runs
+
+
 def _run_real_sockets(ctx):
     """what in-memory streams cannot show: what the kernel and the stream writer do with data that is still unread / unsent when the sender
     closes.  Over a real localhost TCP connection and a real unix socket the client writes a burst and closes while the peer has not read
@@ -538,6 +667,9 @@ def _run_real_sockets(ctx):
         for kind in ("tcp-lines", "unix-lines"):
             cases.append((kind, {"fill": {"seed": f"{ctx.seed}:{kind}:{pause}", "len": 4095, "extra": 4, "cap": 4000}, "pause": pause}))
     _eval_real_socket_bursts(ctx, cases)
+    # (c) an exchange whose write half fails under real flow control while the peer's messages are available / arrive later
+    _eval_real_socket_failed_writes(ctx, [(kind, {"seed": f"{ctx.seed}:fw:{kind}:{how}", "len": 4095, "cap": 4000, "how": how})
+                                          for kind in ("tcp-lines", "unix-lines") for how in ("transport-timeout", "caller-deadline")])
 
 
 class _CountWriter(MemWriter):
@@ -1593,6 +1725,11 @@ def replay(ctx, payload):
         print(f"impl : client reads {_short(r['got'], 500)}; server loop {r.get('server_end')}")
         print(f"model: handed over = the requests sent, in order; client reads = the replies handle_request gave: "
               f"{['msg ' + b.hex() for _a, b in r['log'] if isinstance(b, bytes) and b]}")
+    elif side == "real-socket-failed-write":
+        print(f"case    : {c['scheme']} client over a real socket, peer not reading: " + "; ".join(c["ops"]))
+        o, = _eval_real_socket_failed_writes(ctx, [(c["scheme"], c["spec"])])
+        print(f"impl : request -> {_short(o['request'], 60)}; peer read {len(o['peer_read'])} of {len(o['written'])} written; client reads {[_short(x, 40) for x in o['reads']]}")
+        print(f"model: request -> write-timeout; peer reads all {len(o['written'])}; client reads {[_short(x, 40) for x in o['want_reads']]}")
     elif side == "real-socket":
         spec = {"pause": c.get("pause", 0.15)}
         spec.update({"fill": c["fill"]} if "fill" in c else {"messages": c["messages"]})
